@@ -26,12 +26,12 @@ type synthItem struct {
 	req  []string
 }
 
-func (s *synthItem) Name() string                                          { return s.name }
-func (s *synthItem) Provides() []string                                    { return s.prov }
-func (s *synthItem) Requires() []string                                    { return s.req }
+func (s *synthItem) Name() string                                             { return s.name }
+func (s *synthItem) Provides() []string                                       { return s.prov }
+func (s *synthItem) Requires() []string                                       { return s.req }
 func (s *synthItem) ListConfigurationOptions() []hercules.ConfigurationOption { return nil }
-func (s *synthItem) Configure(map[string]interface{}) error                { return nil }
-func (s *synthItem) Initialize(*git.Repository) error                      { return nil }
+func (s *synthItem) Configure(map[string]interface{}) error                   { return nil }
+func (s *synthItem) Initialize(*git.Repository) error                         { return nil }
 func (s *synthItem) Consume(map[string]interface{}) (map[string]interface{}, error) {
 	return nil, nil
 }
@@ -58,6 +58,7 @@ func (quiet) Critical(...interface{})          {}
 func (quiet) Criticalf(string, ...interface{}) {}
 
 var repo *git.Repository
+var dagPath string
 
 const runs = 4 // Go randomises map iteration per range loop: repeated runs expose order dependence
 
@@ -109,11 +110,23 @@ func (s spec) instantiate(id int) hercules.PipelineItem {
 
 // initialize runs Pipeline.Initialize in dry-run mode on a pipeline that already has its items and
 // maps the result to (ok <ids in resolved order>) | (err <class>) | (panic <class>).
-func initialize(p *hercules.Pipeline, ids map[hercules.PipelineItem]int) Sx {
+//
+// variant selects the other options Initialize reads around resolve (bit 0: the DAG is dumped to a
+// file - resolve then copies and serialises the graph; bit 1: DumpPlan, PrintActions and a hibernation
+// distance): none of them may change the outcome.
+func initialize(p *hercules.Pipeline, ids map[hercules.PipelineItem]int, variant int) Sx {
 	facts := map[string]interface{}{
 		hercules.ConfigPipelineDryRun:  true,
 		hercules.ConfigPipelineCommits: []*object.Commit{},
 		hercules.ConfigLogger:          quiet{},
+	}
+	if variant&1 != 0 {
+		facts[hercules.ConfigPipelineDAGPath] = dagPath
+	}
+	if variant&2 != 0 {
+		facts[hercules.ConfigPipelineDumpPlan] = true
+		facts["Pipeline.PrintActions"] = true      // core.ConfigPipelinePrintActions
+		facts["Pipeline.HibernationDistance"] = 10 // core.ConfigPipelineHibernationDistance
 	}
 	var err error
 	msg, panicked := Catch(func() { err = p.Initialize(facts) })
@@ -146,10 +159,14 @@ func initialize(p *hercules.Pipeline, ids map[hercules.PipelineItem]int) Sx {
 	return T("ok", res...)
 }
 
+// distinct: the different outcomes of the runs of one case, each with the runs (= option variants) that
+// produced it: (o <outcome> <run>...)
 func distinct(outs []Sx) []Sx {
 	seen := map[string]Sx{}
-	for _, o := range outs {
+	who := map[string][]Sx{}
+	for r, o := range outs {
 		seen[o.String()] = o
+		who[o.String()] = append(who[o.String()], I(r))
 	}
 	keys := make([]string, 0, len(seen))
 	for k := range seen {
@@ -158,7 +175,7 @@ func distinct(outs []Sx) []Sx {
 	sort.Strings(keys)
 	res := make([]Sx, len(keys))
 	for i, k := range keys {
-		res[i] = T("o", seen[k])
+		res[i] = T("o", append([]Sx{seen[k]}, who[k]...)...)
 	}
 	return res
 }
@@ -175,7 +192,7 @@ func observeSynth(items []spec) []Sx {
 			ids[it] = i
 			p.AddItem(it)
 		}
-		outs = append(outs, initialize(p, ids))
+		outs = append(outs, initialize(p, ids, r))
 	}
 	return distinct(outs)
 }
@@ -375,7 +392,7 @@ func observeDeploy(feats []string, roots []spec) (obs []Sx, nitems int, nreq int
 			added = append(added, a)
 			itemsSx = append(itemsSx, b)
 		}
-		outs = append(outs, initialize(p, ids))
+		outs = append(outs, initialize(p, ids, r))
 	}
 	if len(added) > 1 {
 		return []Sx{T("nondet", append(added, itemsSx...)...)}, nitems, nreq
@@ -712,12 +729,20 @@ func main() {
 	if err != nil {
 		panic(err)
 	}
+	dir := os.TempDir()
+	if st, err := os.Stat("/dev/shm"); err == nil && st.IsDir() {
+		dir = "/dev/shm" // thousands of small dumps: keep them off the disk
+	}
+	dagPath = fmt.Sprintf("%s/c10-dag-%d.dot", dir, os.Getpid())
+	defer os.Remove(dagPath)
 	reg := readRegistry()
 	if c.Replay != "" {
 		for _, cs := range c.ReplayCases() {
 			kind, _ := cs.Field("kind")
 			k := kind.Args()[0].Atom
-			if f, ok := cs.Field("deploys"); ok {
+			if f, ok := cs.Field("ops"); ok {
+				emitSeq(c, k, reg, parseOps(f))
+			} else if f, ok := cs.Field("deploys"); ok {
 				feats, _ := cs.Field("feats")
 				emitDeploy(c, k, reg, parseStrings(feats), parseDeploys(f))
 			} else if f, ok := cs.Field("items"); ok {
@@ -728,4 +753,8 @@ func main() {
 	}
 	leaves(c, reg)
 	synthetic(c)
+	cascades(c)
+	manySameNamed(c)
+	scale(c)
+	sequences(c, reg)
 }
